@@ -106,6 +106,48 @@ class Program:
             self._info[body_id] = bi
         return bi
 
+    def inlined_variant(self, body_id, want, depth=3):
+        """a copy of body_id in which the calls to local synchronous functions selected by want(BodyInfo, bb, Term) are
+        spliced in (norm.py), for rules that follow one value through a helper of another module.  Returns the id of the
+        variant (known to info() / effects() only; never enumerated), or body_id itself when nothing was spliced."""
+        import copy
+        from mir import Body
+        import norm
+        base = self.facts.body(body_id)
+        if base is None:
+            return body_id
+        gj = copy.deepcopy(base.j)
+        nz = norm.Normaliser(self.facts, ())
+        spliced = 0
+        for _ in range(depth * 4):
+            tmp = Body(gj, base.crate, base.types)
+            tmp.id = body_id
+            ti = BodyInfo(tmp, self.facts)
+            site = None
+            for bb, t in ti.calls():
+                c = t.callee
+                if not (c.local or c.res_local) or c.path.endswith("Future::poll"):
+                    continue
+                cb = self.facts.body(self.qual(tmp, c.target))
+                if cb is None or cb.coroutine or cb.kind not in ("Fn", "AssocFn") or cb.id == body_id:
+                    continue
+                if any(k for k in self.facts.children(cb.id) if self.facts.body(k).coroutine and ", Fn)" in self.facts.body(k).coroutine):
+                    continue
+                if want(ti, bb, t):
+                    site = (bb, cb)
+                    break
+            if site is None:
+                break
+            nz.splice_sync(gj, site[0], site[1].j)
+            spliced += 1
+        if not spliced:
+            return body_id
+        vid = body_id + "#inl%d" % (len([k for k in self._info if k.startswith(body_id + "#inl")]) + 1)
+        nb = Body(gj, base.crate, base.types)
+        nb.id = body_id
+        self._info[vid] = BodyInfo(nb, self.facts)
+        return vid
+
     def qual(self, body, ident):
         """body ids of the bin crate are prefixed"""
         if body.crate == "bin" and not ident.startswith("bin::"):
@@ -157,6 +199,8 @@ class Program:
             for i, s in enumerate(b.stmts):
                 if s.k == "assign" and s.rv.k == "agg" and s.rv.j["ak"] in ("closure", "coroutine"):
                     dst = self.qual(body, s.rv.j["def"])
+                    if self.facts.body(dst) is None:
+                        continue          # the coroutine of an awaited helper: spliced into this body (norm.py)
                     sp = spawned_aggs.get((b.idx, i))
                     if sp is not None:
                         kind = "spawn-" + sp.kind + ("-awaited" if sp.awaited else "")
@@ -284,6 +328,8 @@ class Program:
                 # closures / coroutines constructed here
                 if s.rv.k == "agg" and s.rv.j["ak"] in ("closure", "coroutine"):
                     child = self.qual(body, s.rv.j["def"])
+                    if self.facts.body(child) is None:
+                        continue
                     sp = spawned_aggs.get((b.idx, i))
                     spawned = sp.kind if sp is not None else None
                     if sp is not None and sp.awaited:
